@@ -419,8 +419,8 @@ Lemma mget_kr2 R M P a b r : wf_cols R M -> wf_cols R P -> a < length M -> b < l
 Proof.
   intros WM WP Ha Hb Hr. unfold mget, kr2.
   rewrite (nth_flat_map_uniform _ (length M) [] []) by (auto; intros; now rewrite map_length).
-  change (@nil V) with (zipmul vmul (@nil V) (nth b P [])) at 1.
-  rewrite (map_nth (fun mr => zipmul vmul mr (nth b P [])) M [] a).
+  set (g := fun mr : list V => zipmul vmul mr (nth b P [])).
+  change (@nil V) with (g []) at 1. rewrite (map_nth g M [] a). unfold g.
   apply nth_zipmul; [rewrite (wf_cols_nth R M a)|rewrite (wf_cols_nth R P b)]; auto.
 Qed.
 
@@ -447,7 +447,8 @@ Proof.
     replace (Nat.add x (Nat.mul (length U) 0)) with x by lia. ring.
   - change (kr_rev vmul (U :: U2 :: Us)) with (kr2 vmul U (kr_rev vmul (U2 :: Us))).
     destruct (kr_rev_wf R (U2 :: Us) ltac:(discriminate) HUs) as [W2 L2].
-    cbn [map sub2ind]. change (length U2 :: map (@length _) Us) with (map (@length _) (U2 :: Us)).
+    change (sub2ind (map (@length _) (U :: U2 :: Us)) (x :: j))
+      with (Nat.add x (Nat.mul (length U) (sub2ind (map (@length _) (U2 :: Us)) j))).
     rewrite (mget_kr2 R) by (auto; rewrite L2; now apply sub2ind_lt).
     rewrite IH by (auto; discriminate). reflexivity.
 Qed.
@@ -457,7 +458,7 @@ Qed.
 Theorem impl_mttkrp_dense_n0_correct (X : dense V) Us R :
   wf_dense X -> 2 <= length (dshape X) -> length Us = length (dshape X) ->
   Forall (wf_cols R) (skipn 1 Us) -> map (@length _) (skipn 1 Us) = skipn 1 (dshape X) ->
-  let Y := impl_mttkrp_dense v0 v1 vadd vmul X Us 0 R in
+  let Y := impl_mttkrp_dense v0 vadd vmul X Us 0 R in
   dshape Y = [nth 0 (dshape X) 0; R] /\ wf_dense Y /\
   forall x r, x < nth 0 (dshape X) 0 -> r < R ->
     den Y [x; r] = spec_mttkrp v0 v1 vadd vmul (den X) (dshape X) 0 (repeat v1 R) Us x r.
